@@ -26,6 +26,9 @@ sys.path.insert(0, HERE)
 import extract  # noqa: E402
 
 REPO = os.environ.get("VERIF_REPO", "/repo")
+# development runs against a scratch copy (VERIF_REPO set to something else than /repo) or with a harness filter must not
+# overwrite the evidence/replays of the real tree
+OUT_ROOT = VERIF if (os.path.realpath(REPO) == "/repo" and not os.environ.get("VERIF_HARNESS")) else os.environ.get("VERIF_DEV_OUT", "/tmp/verif-dev-out")
 SCRATCH_ROOT = os.environ.get("VERIF_SCRATCH", "/var/tmp/vrp-verif")
 MEM_CAP_GB = int(os.environ.get("VERIF_MEM_GB", "10"))     # resident-memory cap per verifier process group (a harness may raise it: "mem_gb")
 JOBS = int(os.environ.get("VERIF_JOBS", "5"))            # verifier processes running at the same time, across all units of a check
@@ -630,7 +633,7 @@ def report(pid, tier, results, known, prop, wall):
     viol = []
     known_hits = []
     undec = [r for r in results if r["status"] == "undecided"]
-    rep_dir = os.path.join(VERIF, "replays", pid)
+    rep_dir = os.path.join(OUT_ROOT, "replays", pid)
     state = repo_state()
     for r in results:
         for f in r["failed"]:
@@ -769,8 +772,8 @@ def write_evidence(pid, tier, seed, level, results, known_hits, viol, undec, wal
         cov["explanation"] += " In this run no complete obligation was part of the tier: only bounded harnesses ran."
     ev = {"property_id": pid, "tier": tier, "seed": seed, "level": level, "coverage": cov,
           "assumptions": assumptions, "wall_s": round(wall, 1), "violations": len(viol)}
-    os.makedirs(os.path.join(VERIF, "evidence"), exist_ok=True)
-    json.dump(ev, open(os.path.join(VERIF, "evidence", pid + ".json"), "w"), indent=1)
+    os.makedirs(os.path.join(OUT_ROOT, "evidence"), exist_ok=True)
+    json.dump(ev, open(os.path.join(OUT_ROOT, "evidence", pid + ".json"), "w"), indent=1)
 
 
 # ------------------------------------------------------------------ replay
@@ -826,6 +829,9 @@ def main(argv):
             keep = True; i += 1
         else:
             i += 1
+    if only:
+        global OUT_ROOT
+        OUT_ROOT = os.environ.get("VERIF_DEV_OUT", "/tmp/verif-dev-out") if OUT_ROOT == VERIF else OUT_ROOT     # partial run: not the property's evidence
     if pid == "all":
         codes = {}
         for c in sorted(manifest_levels()):
